@@ -225,14 +225,15 @@ theorem sendO_k (o : KcpO) (b : Bytes) : (sendO o b).o.k = (o.k.send b).k := by
   by_cases c1 : b.length = 0
   · rw [if_pos c1, send_eq, if_pos c1]
   rw [if_neg c1]
+  by_cases c4 : sendCount (b.drop (sendExt o.k b)) o.k.mss.toNat > 255
+  · rw [if_pos c4, send_eq, if_neg c1, if_pos c4]
+  rw [if_neg c4]
   by_cases c2 : sendPanic1 o.k (sendExt o.k b) = true
-  · rw [if_pos c2, send_eq, if_neg c1, if_pos c2]
+  · rw [if_pos c2, send_eq, if_neg c1, if_neg c4, if_pos c2]
   rw [if_neg c2]
   split
   · rfl
-  · split
-    · rfl
-    · split <;> rfl
+  · split <;> rfl
 
 theorem sendO_sync {o : KcpO} (h : Sync o) (b : Bytes) : Sync (sendO o b).o := by
   unfold sendO
@@ -240,6 +241,9 @@ theorem sendO_sync {o : KcpO} (h : Sync o) (b : Bytes) : Sync (sendO o b).o := b
   by_cases c1 : b.length = 0
   · rw [if_pos c1]; exact h
   rw [if_neg c1]
+  by_cases c4 : sendCount (b.drop (sendExt o.k b)) o.k.mss.toNat > 255
+  · rw [if_pos c4]; exact h
+  rw [if_neg c4]
   by_cases c2 : sendPanic1 o.k (sendExt o.k b) = true
   · rw [if_pos c2]; exact h
   rw [if_neg c2]
@@ -247,23 +251,17 @@ theorem sendO_sync {o : KcpO} (h : Sync o) (b : Bytes) : Sync (sendO o b).o := b
   by_cases c3 : o.k.stream ≠ 0 ∧ (b.drop (sendExt o.k b)).length = 0
   · rw [if_pos c3]
     have hk : (o.k.send b).k = { o.k with snd_queue := sendQ1 o.k b (sendExt o.k b) } := by
-      rw [send_eq, if_neg c1, if_neg c2, if_pos c3]
+      rw [send_eq, if_neg c1, if_neg c4, if_neg c2, if_pos c3]
     exact ⟨by rw [hk]; exact hq, by rw [hk]; exact h.sb, by rw [hk]; exact h.rb, by rw [hk]; exact h.rq⟩
   rw [if_neg c3]
-  by_cases c4 : sendCount (b.drop (sendExt o.k b)) o.k.mss.toNat > 255
-  · rw [if_pos c4]
-    have hk : (o.k.send b).k = { o.k with snd_queue := sendQ1 o.k b (sendExt o.k b) } := by
-      rw [send_eq, if_neg c1, if_neg c2, if_neg c3, if_pos c4]
-    exact ⟨by rw [hk]; exact hq, by rw [hk]; exact h.sb, by rw [hk]; exact h.rb, by rw [hk]; exact h.rq⟩
-  rw [if_neg c4]
   by_cases c5 : min (b.drop (sendExt o.k b)).length o.k.mss.toNat > mtuLimit
   · rw [if_pos c5]
     have hk : (o.k.send b).k = { o.k with snd_queue := sendQ1 o.k b (sendExt o.k b) } := by
-      rw [send_eq, if_neg c1, if_neg c2, if_neg c3, if_neg c4, if_pos c5]
+      rw [send_eq, if_neg c1, if_neg c4, if_neg c2, if_neg c3, if_pos c5]
     exact ⟨by rw [hk]; exact hq, by rw [hk]; exact h.sb, by rw [hk]; exact h.rb, by rw [hk]; exact h.rq⟩
   rw [if_neg c5]
   have hk : (o.k.send b).k = { o.k with snd_queue := sendQ1 o.k b (sendExt o.k b) ++ sendNew o.k (b.drop (sendExt o.k b)) } := by
-    rw [send_eq, if_neg c1, if_neg c2, if_neg c3, if_neg c4, if_neg c5]
+    rw [send_eq, if_neg c1, if_neg c4, if_neg c2, if_neg c3, if_neg c5]
   refine ⟨?_, by rw [hk]; exact h.sb, by rw [hk]; exact h.rb, by rw [hk]; exact h.rq⟩
   rw [hk]
   show sendQ1 o.k b (sendExt o.k b) ++ sendNew o.k (b.drop (sendExt o.k b)) = er (_ ++ _)
